@@ -115,24 +115,36 @@ var kindNames = map[protoreflect.Kind]string{
 }
 
 // Description is the text the reader derives from the source comments of a
-// descriptor (leading then trailing comment lines, trimmed, empty lines and
-// lines starting with '#' dropped, joined by newline).
+// descriptor (buildComment / appendCommentLines as of /repo f0aec6c: leading then
+// trailing comment block; per block the lines trimmed, lines starting with '#'
+// dropped, blank lines between two kept lines of the block kept as paragraph
+// breaks, blank lines at either end of the block dropped; joined by newline).
 func Description(d protoreflect.Descriptor) string {
 	loc := d.ParentFile().SourceLocations().ByDescriptor(d)
-	var all []string
-	if loc.LeadingComments != "" {
-		all = append(all, strings.Split(loc.LeadingComments, "\n")...)
-	}
-	if loc.TrailingComments != "" {
-		all = append(all, strings.Split(loc.TrailingComments, "\n")...)
-	}
 	var out []string
-	for _, c := range all {
-		c = strings.TrimSpace(c)
-		if c == "" || strings.HasPrefix(c, "#") {
+	for _, block := range []string{loc.LeadingComments, loc.TrailingComments} {
+		if block == "" {
 			continue
 		}
-		out = append(out, c)
+		blank := 0
+		first := true
+		for _, c := range strings.Split(block, "\n") {
+			c = strings.TrimSpace(c)
+			if c == "" {
+				if !first {
+					blank++
+				}
+				continue
+			}
+			if strings.HasPrefix(c, "#") {
+				continue
+			}
+			for ; blank > 0; blank-- {
+				out = append(out, "")
+			}
+			first = false
+			out = append(out, c)
+		}
 	}
 	return strings.Join(out, "\n")
 }
